@@ -462,13 +462,20 @@ func checkAndExtractFieldType(paths []string, typ reflect.Type) (extracted refle
 			continue
 		}
 
-		if i < len(paths)-1 {
-			if extracted.Kind() == reflect.Interface {
+		if extracted.Kind() == reflect.Interface {
+			if i < len(paths)-1 {
 				return extracted, true, nil
 			}
 
+			continue // what is below an interface value is only known at request time
+		}
+
+		if i < len(paths)-1 {
 			return nil, false, fmt.Errorf("intermediate type[%v] is not valid", extracted)
 		}
+
+		// the last path element needs something to be taken from (or set in) as well
+		return nil, false, fmt.Errorf("type[%v] is not a struct, map or interface: it has no field[%s]", extracted, field)
 	}
 
 	return extracted, false, nil
